@@ -620,7 +620,16 @@ class DestHandler:
         self._params.fp.file_size_eof = eof_pdu.file_size
         self._params.fp.crc32 = eof_pdu.file_checksum
         self._params.acked_params.metadata_missing = True
-        if self._params.fp.progress > 0:
+        if eof_pdu.condition_code != ConditionCode.NO_ERROR:
+            # This is an EOF (Cancel), perform Cancel Response Procedures according to chapter
+            # 4.6.6 of the standard: nothing is re-requested for a cancelled transaction.
+            assert self._params.remote_cfg is not None
+            self._trigger_notice_of_completion_canceled(
+                eof_pdu.condition_code,
+                EntityIdTlv(self._params.remote_cfg.entity_id.as_bytes),
+            )
+            self._params.finished_params.delivery_code = DeliveryCode.DATA_INCOMPLETE
+        elif self._params.fp.progress > 0:
             # Clear old list, deferred procedure for the whole file is now active.
             self._params.acked_params.lost_seg_tracker.reset()
             # I will just wait until the metadata has been received with re-requesting the file
